@@ -5,6 +5,7 @@ package main
 
 import (
 	"fmt"
+	"go/token"
 	"sort"
 	"strings"
 
@@ -271,6 +272,7 @@ func errflowCone(c *Ctx, cfg *EFConfig) {
 		}
 		nFn++
 		c.touch(fn)
+		deferredErrOverwrite(c, cfg, fn)
 		for _, ci := range calls(fn) {
 			call, ok := ci.(*ssa.Call)
 			if !ok {
@@ -341,4 +343,87 @@ func errflowCone(c *Ctx, cfg *EFConfig) {
 	_ = usedExc
 	_ = sort.Strings
 	c.note(fmt.Sprintf("%s: cone of %d root(s): %d functions analysed, %d error-returning call sites, %d fail-stop walks", cfg.Rule, len(roots), nFn, nCalls, nWalk))
+}
+
+
+// deferredErrOverwrite (I2): a deferred closure that assigns the function's named
+// error result must not be able to replace a non-nil error with nil
+// (`defer func() { err = f.Close() }()` turns a failed copy into success).  An
+// assignment is accepted when it happens only while the result is still nil,
+// only with a value known to be non-nil, or with a value that wraps/joins the
+// old one.
+func deferredErrOverwrite(c *Ctx, cfg *EFConfig, fn *ssa.Function) {
+	idx := errResultIndex(fn.Signature)
+	if idx < 0 || fn.Signature.Results().At(idx).Name() == "" {
+		return
+	}
+	resName := fn.Signature.Results().At(idx).Name()
+	var cell *ssa.Alloc
+	for _, b := range fn.Blocks {
+		for _, in := range b.Instrs {
+			if a, ok := in.(*ssa.Alloc); ok && a.Comment == resName && isErrorType(deref(a.Type())) {
+				cell = a
+			}
+		}
+	}
+	if cell == nil {
+		return
+	}
+	for _, g := range withClosures(fn) {
+		if g == fn || !deferredOnly(g) {
+			continue
+		}
+		for _, b := range g.Blocks {
+			for _, in := range b.Instrs {
+				st, ok := in.(*ssa.Store)
+				if !ok || cellOf(st.Addr) != ssa.Value(cell) {
+					continue
+				}
+				old := func(v ssa.Value) bool {
+					u, ok := v.(*ssa.UnOp)
+					return ok && u.Op == token.MUL && cellOf(u.X) == ssa.Value(cell)
+				}
+				okSt, why := false, ""
+				if isNilConst(st.Val) {
+					okSt, why = false, "assigns nil"
+				}
+				if g1, k1 := guardedBy(st, cmpFact(old, token.EQL, vNil(), "")); k1 > 0 && g1 {
+					okSt, why = true, "only while the result is still nil"
+				}
+				v := st.Val
+				if g2, k2 := guardedBy(st, cmpFact(func(x ssa.Value) bool { return x == v || sameValue(x, v) }, token.NEQ, vNil(), "")); !okSt && k2 > 0 && g2 {
+					okSt, why = true, "only with a non-nil value"
+				}
+				if !okSt {
+					all := true
+					for _, o := range errOrigins(st.Val) {
+						if nonNilMaker(o) {
+							continue
+						}
+						if call, isCall := o.(*ssa.Call); isCall && (calleeName(call) == "errors.Join") {
+							joined := false
+							for _, a := range variadicElems(call) {
+								if old(a) {
+									joined = true
+								}
+							}
+							if joined {
+								continue
+							}
+						}
+						all = false
+					}
+					if all && len(errOrigins(st.Val)) > 0 {
+						okSt, why = true, "value is non-nil or joins the previous error"
+					}
+				}
+				construct := fmt.Sprintf("%s: deferred assignment to the named error result %q keeps a previous error", fnName(fn), resName)
+				if okSt {
+					c.ok(cfg.Rule, construct, c.pos(st), why)
+				} else {
+					c.fail(cfg.Rule, construct, c.pos(st), "a deferred closure overwrites the error result unconditionally: an error returned by the body (a failed read/copy) is replaced by the cleanup's result and the caller sees success")
+				}
+			}
+		}
+	}
 }
